@@ -502,10 +502,10 @@ func (e *env) runCase(k kase) {
 		st, err := erasurecoding.NewWithPartStores(k.D, k.P, stripeShardSize, inner, erasurecoding.WithHealScanInterval(2*time.Millisecond))
 		must(err)
 		must(st.Start(context.Background()))
-		deadline := time.Now().Add(60 * time.Second)
+		deadline := time.Now().Add(300 * time.Second)
 		for cnt.listCalls.Load() < 2 {
 			if time.Now().After(deadline) {
-				fmt.Fprintln(os.Stderr, "ecread driver: heal scan did not complete within 60s")
+				fmt.Fprintln(os.Stderr, "ecread driver: heal scan did not complete within 300s")
 				os.Exit(3)
 			}
 			time.Sleep(200 * time.Microsecond)
